@@ -11,6 +11,8 @@ structure St where
   preBroken : Bool := false   -- IgnorePacketsBelow was called above the largest received number (the connection never does)
   diverged : Bool := false
 
+def ecnNotECT : Nat := Uquic.Gen.Protocol.ECNNon.toNat
+
 def parseLevel : String → Option Level
   | "I" => some .initial | "H" => some .handshake | "Z" => some .zeroRTT | "A" => some .oneRTT | _ => none
 
@@ -117,6 +119,20 @@ def step (s : St) (op impl : String) : St × StepOut :=
         (if h'.app.ackQueued && !s.h.app.ackQueued then ["recv:queued"] else [])
       let trimmed := s.trimmed || numRanges h' lvl ≥ maxNumAckRanges
       return fin { s with h := h', g := g', trimmed := trimmed } model tags fails
+  | ["fill", l, cnt, start, stp, t] =>
+    match parseLevel l with
+    | none => (s, { model := "bad-op" })
+    | some lvl =>
+      let cnt := natOf cnt; let start := intOf start; let stp := intOf stp; let t := intOf t
+      let (h', bad) := (List.range cnt).foldl (fun (acc : Handler × Bool) j =>
+        let (h1, o) := acc.1.receivedPacket (start + Int.ofNat j * stp) ecnNotECT lvl t false
+        (h1, acc.2 || o != .ok)) (s.h, false)
+      let sp := getSpace s.g lvl
+      let sp' := { sp with R := (List.range cnt).foldl (fun R j =>
+        let p := start + Int.ofNat j * stp
+        if R.contains p then R else p :: R) sp.R }
+      let trimmed := s.trimmed || numRanges h' lvl ≥ maxNumAckRanges
+      fin { s with h := h', g := setSpace s.g lvl sp', trimmed := trimmed } (if bad then "E:bug" else "ok") ["fill"] []
   | ["dup", l, pn] =>
     match parseLevel l with
     | none => (s, { model := "bad-op" })
@@ -156,7 +172,14 @@ def step (s : St) (op impl : String) : St × StepOut :=
         | some m, r :: _ => if !(r.1 ≤ m && m ≤ r.2) && m ≥ floor then
             fails := fails ++ [("ack_includes_largest", "-", s!"max={m} top={r.1}-{r.2}")]
         | _, _ => pure ()
-        let sp' := { sp with lastAck := some rs, unackedAE := sp.unackedAE.filter (fun (p, _) => !covers rs p) }
+        -- a returned ACK covers every pending ack-eliciting packet, unless the range cap
+        -- (MaxNumAckRanges) has dropped its range: that is the code's deliberate DoS bound, and the
+        -- theorems (ack_timely, dup_complete) are stated with the same exception
+        if !s.trimmed then
+          for (p, _) in sp.unackedAE do
+            if p ≥ floor && !covers rs p then
+              fails := fails ++ [("ack_misses_pending", "-", s!"pn={p} not covered by {fmtRanges rs}")]
+        let sp' := { sp with lastAck := some rs, unackedAE := [] }
         g' := setSpace g' lvl sp'
         if isApp then g' := { g' with aeSinceAck := 0 }
       | none =>
